@@ -297,7 +297,11 @@ fn main_check(ctx: &Ctx) -> Outcome {
     let evals = AtomicU64::new(0);
     let viol = std::sync::Mutex::new(Vec::<Finding>::new());
     let distinct = std::sync::Mutex::new(std::collections::HashSet::<u64>::new());
-    for (alphabet_name, focus, l) in [("single bytes", focus_bytes, if quick { 6 } else { 7 }), ("whole sequences", focus_macro, if quick { 5 } else { 6 })] {
+    // bytes at the edges of UTF-8: the first / last lead bytes, the second bytes where well-formedness ends (E0 9F|A0,
+    // ED 9F|A0, F0 8F|90, F4 8F|90), plain continuations - a look-ahead decoder and a resumable one must agree wherever
+    // the cut falls
+    let focus_utf8: Vec<&[u8]> = vec![b"a", b"\x1b[1m", b"\xc2", b"\xe0", b"\xed", b"\xf0", b"\xf4", b"\x80", b"\x8f", b"\x90", b"\x9f", b"\xa0", b"\xbf"];
+    for (alphabet_name, focus, l) in [("single bytes", focus_bytes, if quick { 6 } else { 7 }), ("whole sequences", focus_macro, if quick { 5 } else { 6 }), ("UTF-8 edge bytes", focus_utf8, if quick { 5 } else { 6 })] {
         // (index-decoded: the list of 12^7 inputs would take gigabytes)
         let n_inputs = count_upto(focus.len(), l);
         (1..n_inputs).into_par_iter().for_each(|ii| {
